@@ -392,7 +392,16 @@ func oracle(c *Case, o *Obs) (fs []common.OracleFailure, obsNotes []string) {
 		}
 	}
 	if complete < required {
-		fail("resp-lost", fmt.Sprintf("the origin sent %d responses that had to be delivered, the client received %d complete ones", required, complete))
+		// what ended the connection decides the key: responses the origin had sent before the close indication /
+		// before a malformed response / without any end of the connection at all
+		key := "resp-lost:no-end-indication"
+		switch {
+		case hardEnd >= 0 && required == hardEnd+1:
+			key = "resp-lost:sent-before-close"
+		case softEnd >= 0 && required == softEnd:
+			key = "resp-lost:sent-before-malformed-or-redirect"
+		}
+		fail(key, fmt.Sprintf("the origin sent %d responses that had to be delivered (the connection may end only after them), the client received %d complete ones (last: %q)", required, complete, lastLine(fromOrigin)))
 	}
 	// every request the origin received completely (and answers: the scripted origin answers each one) gets its final
 	// response, up to the first response that ends the connection
@@ -416,7 +425,7 @@ func oracle(c *Case, o *Obs) (fs []common.OracleFailure, obsNotes []string) {
 			}
 		}
 		if complete < need {
-			key := "resp-lost"
+			key := "resp-lost:answered-request"
 			if len(fromOrigin) > 0 && complete == len(fromOrigin) && complete < len(seq)+1 && complete >= 1 {
 				last := fromOrigin[complete-1]
 				if statusOf(last.Line)/100 == 1 {
